@@ -385,7 +385,7 @@ impl Message {
 
     /// Indicates whether this is the RDA system's controlling channel.
     pub fn controlling_channel(&self) -> bool {
-        self.channel_control_status & 1 != 0
+        self.channel_control_status & 1 == 0
     }
 
     /// The RDA system's spot blanking status.
